@@ -45,6 +45,7 @@ func runC01(c *Ctx) {
 	c01SelectionsPrivate(c)
 	scanTotal(c)
 	errorListOnce(c)
+	valueWithVariables(c)
 }
 
 // c01SelectionsPrivate: the merged sub-selection of a collected field is a slice private to that CollectFields call.  Fields
